@@ -355,6 +355,22 @@ func genHttp2Conv(r *Rand, tier string, emit func(sx.Sx)) {
 		}
 		emit(sx.L(sx.L(append([]sx.Sx{sx.A("c")}, merge(cstreams)...)...), sx.L(append([]sx.Sx{sx.A("s")}, merge(sstreams)...)...)))
 	}
+	// bodies that cross the 1 MiB cap inside a DATA frame (frame sizes that do not tile 2^20: the writer cuts at 16384,
+	// so a first piece of 2^20-k bytes ends k bytes short of the cap and the next frame straddles it), on the request,
+	// on the response and on two interleaved streams; both tiers
+	for _, c := range [][2]int{{1048570, 100}, {1048575, 10}, {1040000, 16000}, {1048576 - 16384 + 5, 16384}} {
+		dz := func(sid int, end bool, n int) sx.Sx { return sx.L(sx.A("dz"), sx.N(sid), sx.Bool(end), sx.N(n), sx.N(65+r.Intn(20))) }
+		reqH := func(sid int, end bool) sx.Sx {
+			return sx.L(sx.A("h"), sx.N(sid), sx.Bool(end), sx.L(kv(":method", "POST"), kv(":scheme", "http"), kv(":path", "/upload"), kv(":authority", "svc.example")), sx.N(0))
+		}
+		respH := func(sid int, end bool) sx.Sx {
+			return sx.L(sx.A("h"), sx.N(sid), sx.Bool(end), sx.L(kv(":status", "200"), kv("server", "srv")), sx.N(0))
+		}
+		emit(sx.L(sx.L(sx.A("c"), reqH(1, false), dz(1, false, c[0]), dz(1, true, c[1])), sx.L(sx.A("s"), respH(1, true))))
+		emit(sx.L(sx.L(sx.A("c"), reqH(1, true)), sx.L(sx.A("s"), respH(1, false), dz(1, false, c[0]), dz(1, false, c[1]), dz(1, true, 7))))
+		emit(sx.L(sx.L(sx.A("c"), reqH(1, false), reqH(3, false), dz(1, false, c[0]), dz(3, false, 300), dz(1, true, c[1]), dz(3, true, 20)),
+			sx.L(sx.A("s"), respH(3, true), respH(1, true))))
+	}
 	// many streams open at once (long polls, watches, streaming calls): every request's HEADERS first, then a GOAWAY(0)
 	// of the client in the middle, then every closing DATA frame; the server likewise
 	for _, n := range []int{101, 260} {
